@@ -103,60 +103,122 @@ func (e *Env) RWalk() {
 	// visited and a nil result prunes; after the switch an unconditional v.Visit(nil).
 	c := e.Sib.Ctx[load.PkgDst]
 	e.walkFrame(c, w)
-	// inspector.Visit returns the receiver iff f(node): evaluated over the single atom f(node)
+	// Inspect: Walk is called with an adapter built from the callback f (a conversion T(f) or a
+	// literal T{f} / &T{f: f}); the adapter's Visit calls the callback with the node and returns
+	// the adapter itself exactly when the callback returns true, nil otherwise.
 	pkg := e.Prog.Pkg(load.PkgDst)
-	if fd := load.FuncDecl(pkg, "inspector", "Visit"); fd != nil && fd.Body != nil {
-		recvName := fd.Recv.List[0].Names[0].Name
-		param := fd.Type.Params.List[0].Names[0].Name
-		atom := recvName + "(" + param + ")"
-		run := func(val bool) string {
-			var exec func(list []ast.Stmt) (string, bool)
-			exec = func(list []ast.Stmt) (string, bool) {
-				for _, st := range list {
-					switch x := st.(type) {
-					case *ast.ReturnStmt:
-						if len(x.Results) == 1 {
-							return c.ExprStr(x.Results[0]), true
-						}
-						return "?", true
-					case *ast.IfStmt:
-						g := parseGuard(c.ExprStr(x.Cond))
-						if !g.ok || x.Init != nil {
-							return "?", true
-						}
-						atoms := map[string]bool{}
-						collectAtoms(g.expr, atoms)
-						if len(atoms) != 1 || !atoms[atom] {
-							return "?", true
-						}
-						if evalGuard(g.expr, map[string]bool{atom: val}) {
-							if r, done := exec(x.Body.List); done {
-								return r, true
-							}
-						} else if el, ok := x.Else.(*ast.BlockStmt); ok {
-							if r, done := exec(el.List); done {
-								return r, true
-							}
-						}
-					default:
-						return "?", true
+	info := pkg.TypesInfo
+	insp := load.FuncDecl(pkg, "", "Inspect")
+	if insp == nil || insp.Body == nil {
+		e.Run.Violation("R-WALK", "Inspect exists", "", "missing")
+		return
+	}
+	var adapter *types.Named
+	okInspect := false
+	if len(insp.Body.List) == 1 {
+		if es, ok := insp.Body.List[0].(*ast.ExprStmt); ok {
+			if call, ok := es.X.(*ast.CallExpr); ok && schema.IsFunc(c.Callee(call), load.PkgDst, "Walk") && len(call.Args) == 2 {
+				// second argument: the node parameter; first: built from the callback parameter
+				var params []types.Object
+				for _, p := range insp.Type.Params.List {
+					for _, nm := range p.Names {
+						params = append(params, info.Defs[nm])
 					}
 				}
-				return "", false
+				if len(params) == 2 {
+					if id, ok := call.Args[1].(*ast.Ident); ok && info.Uses[id] == params[0] {
+						usesF := false
+						ast.Inspect(call.Args[0], func(n ast.Node) bool {
+							if id, ok := n.(*ast.Ident); ok && info.Uses[id] == params[1] {
+								usesF = true
+							}
+							return true
+						})
+						t := info.TypeOf(call.Args[0])
+						if p, ok := t.(*types.Pointer); ok {
+							t = p.Elem()
+						}
+						if nt, ok := t.(*types.Named); ok && usesF {
+							adapter = nt
+							okInspect = true
+						}
+					}
+				}
 			}
-			r, _ := exec(fd.Body.List)
-			return r
 		}
-		t, f := run(true), run(false)
-		e.Run.Check("R-WALK", "inspector.Visit continues exactly when the callback says so", e.Prog.Pos(fd.Pos()), t == recvName && f == "nil",
-			fmt.Sprintf("when %s is true Visit returns %q (want the receiver), when false %q (want nil)", atom, t, f))
-	} else {
+	}
+	e.Run.Check("R-WALK", "Inspect walks with the inspector adapter", e.Prog.Pos(insp.Pos()), okInspect, "expected Walk(<adapter built from f>, node) as the only statement")
+	if adapter == nil {
+		return
+	}
+	fd := load.FuncDecl(pkg, adapter.Obj().Name(), "Visit")
+	if fd == nil || fd.Body == nil || len(fd.Recv.List[0].Names) == 0 {
 		e.Run.Violation("R-WALK", "inspector.Visit exists", "", "missing")
+		return
 	}
-	if fd := load.FuncDecl(pkg, "", "Inspect"); fd != nil && fd.Body != nil {
-		ok := len(fd.Body.List) == 1 && stmtNorm(c, fd.Body.List[0]) == "Walk(inspector(f), node)"
-		e.Run.Check("R-WALK", "Inspect walks with the inspector adapter", e.Prog.Pos(fd.Pos()), ok, "expected Walk(inspector(f), node)")
+	recvName := fd.Recv.List[0].Names[0].Name
+	param := fd.Type.Params.List[0].Names[0].Name
+	// the callback atom: a call with the node parameter as only argument whose callee is the
+	// receiver or a field of it
+	isAtom := func(x ast.Expr) bool {
+		call, ok := ast.Unparen(x).(*ast.CallExpr)
+		if !ok || len(call.Args) != 1 || c.ExprStr(call.Args[0]) != param {
+			return false
+		}
+		f := c.ExprStr(call.Fun)
+		return f == recvName || strings.HasPrefix(f, recvName+".")
 	}
+	run := func(val bool) string {
+		var evalCond func(x ast.Expr) (bool, bool)
+		evalCond = func(x ast.Expr) (bool, bool) {
+			x = ast.Unparen(x)
+			if isAtom(x) {
+				return val, true
+			}
+			if u, ok := x.(*ast.UnaryExpr); ok && u.Op == token.NOT {
+				v, ok := evalCond(u.X)
+				return !v, ok
+			}
+			return false, false
+		}
+		var exec func(list []ast.Stmt) (string, bool)
+		exec = func(list []ast.Stmt) (string, bool) {
+			for _, st := range list {
+				switch x := st.(type) {
+				case *ast.ReturnStmt:
+					if len(x.Results) == 1 {
+						return c.ExprStr(x.Results[0]), true
+					}
+					return "?", true
+				case *ast.IfStmt:
+					if x.Init != nil {
+						return "?", true
+					}
+					v, ok := evalCond(x.Cond)
+					if !ok {
+						return "?", true
+					}
+					if v {
+						if r, done := exec(x.Body.List); done {
+							return r, true
+						}
+					} else if el, ok := x.Else.(*ast.BlockStmt); ok {
+						if r, done := exec(el.List); done {
+							return r, true
+						}
+					}
+				default:
+					return "?", true
+				}
+			}
+			return "", false
+		}
+		r, _ := exec(fd.Body.List)
+		return r
+	}
+	t, f := run(true), run(false)
+	e.Run.Check("R-WALK", "inspector.Visit continues exactly when the callback says so", e.Prog.Pos(fd.Pos()), t == recvName && f == "nil",
+		fmt.Sprintf("when the callback returns true Visit returns %q (want the receiver %s), when false %q (want nil)", t, recvName, f))
 }
 
 // RApply: the child table of dstutil.apply equals Walk's; literals resolve to the right fields.
